@@ -477,6 +477,27 @@ func (w *world) visible(keys []string, injected bool) []kv {
 	return out
 }
 
+// regKeys is GetRegistrationKeys() in symbols.
+func (w *world) regKeys() [][]int {
+	got := w.reg.GetRegistrationKeys()
+	regs := make([][]int, 0, len(got))
+	for _, k := range got {
+		regs = append(regs, keySym(k))
+	}
+	return regs
+}
+
+// dbNamed is DatabaseName(): 0 = empty, 1 = the name of this history's database, 2 = anything else.
+func (w *world) dbNamed() int {
+	switch w.reg.DatabaseName() {
+	case "":
+		return 0
+	case w.db:
+		return 1
+	}
+	return 2
+}
+
 var serial int
 
 func newWorld(idx int) (*world, error) {
@@ -550,7 +571,7 @@ func runHist(sc *script, idx int, tr *vio.Trace) {
 		}
 		r.Feeds = w.drain()
 		tr.EmitRaw(map[string]any{"e": "op", "h": idx, "op": o, "res": r, "calls": calls,
-			"stores": w.stores(), "vis": w.visible(keys, injected)})
+			"stores": w.stores(), "vis": w.visible(keys, injected), "regkeys": w.regKeys(), "dbn": w.dbNamed()})
 		if r.Panic != "" {
 			break
 		}
@@ -599,12 +620,7 @@ func (w *world) race(sc *script, idx int, tr *vio.Trace) {
 			race[i] = []int{}
 		}
 	}
-	got := w.reg.GetRegistrationKeys()
-	regs := make([][]int, 0, len(got))
-	for _, k := range got {
-		regs = append(regs, keySym(k))
-	}
-	tr.EmitRaw(map[string]any{"e": "race", "h": idx, "keys": race, "errs": out, "regs": regs})
+	tr.EmitRaw(map[string]any{"e": "race", "h": idx, "keys": race, "errs": out, "regs": w.regKeys()})
 }
 
 func main() {
